@@ -307,10 +307,10 @@ func fastaDrive(args []string) error {
 					f.Sequence[j] = "ACGT"[r.Intn(4)]
 				}
 			}
-			if sid%9 == 4 && i == 0 { // a name line of exactly / about a power-of-two length ('>' + name = 4096, 8192)
+			if sid%9 == 4 && sid < 200 && i == 0 { // a name line of exactly / about a power-of-two length ('>' + name = 4096, 8192)
 				f.Name = faRandBytes(r, []int{4094, 4095, 4096, 8191}[(sid/9)%4], "\r\n")
 			}
-			if sid%9 == 8 && i == 0 { // a name of several buffers with the format's own marker at and around every multiple of 4096
+			if sid%9 == 8 && sid < 200 && i == 0 { // a name of several buffers with the format's own marker at and around every multiple of 4096
 				f.Name = faRandBytes(r, 9000+r.Intn(200), "\r\n>")
 				for _, at := range []int{4094, 4095, 4096, 4097, 8190, 8191, 8192, 8193} {
 					if (at+sid/9)%2 == 0 {
@@ -420,9 +420,11 @@ func fastaDrive(args []string) error {
 				if w <= long+1 || w == 4096 {
 					emitRead("layout", faFixedWidth(recs, w, false))
 					emitRead("layout", faFixedWidth(recs, w-1, true))
-					emitRead("layout", faFixedWidth(recs, w, true)) // (the CR is byte w+1 of the line, the LF byte w+2)
-					emitRead("layout", faFixedWidth(recs, w+1, true))
-					emitRead("layout", faFixedWidth(recs, w+1, false))
+					if long <= 70001 { // (not for the multi-megabyte records of the thorough tier: every event carries the text)
+						emitRead("layout", faFixedWidth(recs, w, true)) // (the CR is byte w+1 of the line, the LF byte w+2)
+						emitRead("layout", faFixedWidth(recs, w+1, true))
+						emitRead("layout", faFixedWidth(recs, w+1, false))
+					}
 				}
 			}
 		}
